@@ -256,6 +256,9 @@ def owns (op : String) : Bool :=
   op.startsWith "pm.at." || op.startsWith "pm.place." || op.startsWith "pm.hyg." || op.startsWith "pm.placefx."
 
 def handleUse (op : String) (args : List String) : Option (String × String) := do
+  -- `pm.at.afterexh`: the macro applied to a parser that `split` has exhausted, followed by another `split`;
+  -- the model's parser state has no `yielded_last_split` flag: implementation vs the chain of Parser calls only
+  if op = "pm.at.afterexh" then return ("?", "?")
   match args with
   | [form, a1, a2, arms] =>
     let f ← parseForm form
